@@ -39,6 +39,11 @@ func (c03) Gen(tier string, seed int64, emit func([]Ev)) {
 	for rep := 0; rep < reps; rep++ {
 		for ln := 1; ln <= 183; ln++ {
 			p := c03Start(r, ln)
+			if ln >= 4 && (ln >= 182 || (ln+rep)%9 == 0) && rep%2 == 1 {
+				// a field filled exactly by its optional fields (no stuffing left), e.g. an empty extension
+				// whose length byte is the last byte of the field
+				p = pktWithAF(r, fullAF(r, ln, (rep/2+ln)%4), ln < 183)
+			}
 			var h []Ev
 			n := 2 + r.Intn(steps)
 			for s := 0; s < n; s++ {
@@ -166,6 +171,15 @@ func (c03) GenRows(rows []Ev, tier string, seed int64, emit func([]Ev)) {
 			one(op, B(nil), -1) // one short of the room, exactly fitting, one too many
 			one(op, B(nil), 0)
 			one(op, B(nil), 1)
+			// exactly fitting, then what can be done with a completely full field
+			flw := [][2]interface{}{{"SetHasAdaptationFieldExtension", false}, {"SetHasAdaptationFieldExtension", true}, {"SetAdaptationFieldExtension", B(nil)},
+				{"SetHasTransportPrivateData", false}, {"SetTransportPrivateData", B(rndBytes(r, 1))}, {"SetHasSplicingPoint", false}, {"SetHasPCR", false}}
+			h := []Ev{{"op": op, "arg": B(nil), "fit": 0, "start": B(p[:])}}
+			for k := 0; k < 2; k++ {
+				f := flw[r.Intn(len(flw))]
+				h = append(h, Ev{"op": f[0], "arg": f[1]})
+			}
+			emit(h)
 		}
 	}
 }
